@@ -33,7 +33,7 @@ var cmdPool = []string{"list", "run", "show", "v", "help", "log", "get", "set", 
 var wordPool = []string{
 	"foo", "bar", "baz", "hello", "world", "list", "run", "show", "v", "x", "sub", "wrap", "get", "set", "log", "build",
 	"", " ", "a b", "a=b", "k=v", "k=a=b", "=", "=x", "x=", "1", "7", "007", "3.5", "1..3", "true", "false",
-	"é", "日本", "\xff", "a\nb", "a\tb", "file.txt", "./path/to", "verbose", "help", "name",
+	"é", "日本", "\xff", "a\nb", "a\tb", "file.txt", "./path/to", "verbose", "help", "name", "-=v", "--=v", "-=", "--=a=b",
 }
 
 var strValPool = []string{
